@@ -36,7 +36,7 @@ def model_check(ctx):
 
     grid = [dict(MEM_BASE),
             dict(MEM_BASE, Classes={1, 2}, NAdmin=1, OpKinds={"updidx", "updkey", "delidx", "add"}),
-            dict(MEM_WHOLE, Classes=ctx.pick({1}, {1, 2}), NAdmin=ctx.pick(1, 2)),
+            dict(MEM_WHOLE, Classes=ctx.pick({1}, {1, 2}), NAdmin=ctx.pick(1, 2), TrackLin=ctx.pick(False, True)),
             dict(MEM_ROUTE)]
     if not q:
         grid += [dict(MEM_ROUTE, MaxOps=3, NDisp=0, InitN=2, InitCap=2),
@@ -67,6 +67,11 @@ def model_check(ctx):
         tag="nv_lol_rt")
     job(consts=dict(lol, NAdmin=1, OpKinds={"add", "delidx", "updidx"}, FeKinds={"rw+"}), invariants=MEM_INV + ["AdminLinearizable"],
         count=False, tag="nv_lol_seq")
+    # the same on the table: addRoute that Loads before it takes the table lock reverts an overlapping delAgg
+    job(must_violate("AdminLinearizable", "LoadOutsideLock={add}: delAgg overlapping addRoute is not rejected as AdminLinearizable",
+                     r'l \|-> "agg"'),
+        consts=dict(MEM_WHOLE, NAdmin=2, NDisp=0, TrackLin=True, LoadOutsideLock={"add"}, OpKinds={"add"}, FeKinds={"agg-"}),
+        invariants=["AdminLinearizable"], expect_ok=False, count=False, tag="nv_lol_table")
     # non-vacuity: the pinned delete (cells of the shared array shifted in place) and a missing mutex are rejected
     job(must_violate("Atomic", "DeleteInPlace=TRUE does not violate Atomic in the model"),
         consts=dict(MEM_BASE, DeleteInPlace=True), invariants=["Atomic"], expect_ok=False, count=False, tag="nv_atomic")
@@ -108,7 +113,7 @@ def model_check(ctx):
                                             ", ".join("%s then routes %s" % (sorted(a)[0], sorted(b)[0]) for a, b in pairs),
                                             "DeleteInPlace=TRUE -> Atomic, SnapshotImmutable", "UseMutex=FALSE -> ViewOK",
                                             "LoadOutsideLock={updidx} -> AdminLinearizable, ViewOK with 2 overlapping admins "
-                                            "(delDest || modDest, modRoute || modDest; not with 1 admin)",
+                                            "(delDest || modDest, modRoute || modDest, table: delAgg || addRoute; not with 1 admin)",
                                             "TruncateTail=TRUE -> SnapshotImmutable (2 ops), Atomic (3 ops: delete-last, "
                                             "delete-last, add; not with 2 complete ops)"]
 
@@ -123,15 +128,15 @@ def gen_schedules(ctx, kind, tag, **kw):
     out = []
     for s in ctx.tlc_printed(r, "@@S"):
         out.append(dict(kind=kind, init=c["InitN"], steps=json.loads(s)))
-        if kind == "fe":
+        if kind in ("fe", "tovl"):
             # win: every operation of the schedule happens while the dispatcher is held at the front-end gate
             out[-1].update(febl=c["FeBl"], ferw=c["FeRw"], feagg=c["FeAgg"], rgate=c["RouteGates"], win=c["FeWindow"])
     if kind == "fe" and not out:
         raise Machinery("no whole-table schedules generated")
-    if kind == "ovl" and not all(sum(1 for x in o["steps"] if x["ev"] in ("ov1", "ov2")) == 2 for o in out):
-        raise Machinery("kind ovl: a schedule without its overlapping pair")
-    if kind == "ovl" and not out:
-        raise Machinery("no schedules of overlapping admin operations generated")
+    if kind in ("ovl", "tovl") and not all(sum(1 for x in o["steps"] if x["ev"] in ("ov1", "ov2")) == 2 for o in out):
+        raise Machinery("kind %s: a schedule without its overlapping pair" % kind)
+    if kind in ("ovl", "tovl") and not out:
+        raise Machinery("no schedules of overlapping admin operations generated (kind %s)" % kind)
     return out
 
 
@@ -170,6 +175,13 @@ def schedules(ctx):
     if not q:
         gen("ovl", OpKinds={"add", "delidx", "updidx", "rtupd"}, NDisp=0, Overlap=True, InitN=2, MaxOps=3)
         gen("ovl", OpKinds={"delidx", "updidx", "rtupd"}, NDisp=0, Overlap=True, InitN=4, MaxOps=2, UpdFilters={1, 2})
+    # ... and on the TABLE: DelAggregator of the gate aggregator parked inside Aggregator.Shutdown (table lock held, configuration
+    # loaded, not yet stored) while a second operation on any list (routes, blacklist, rewriters, aggregators) is started
+    tov = dict(OpKinds={"add", "delkey"}, FeKinds=FE_ALL, FeFilters={1}, FeBl=1, FeRw=1, FeAgg=1, NDisp=0, Overlap=True, FeGate=True,
+               RouteGates=False)
+    gen("tovl", **dict(tov, InitN=2, MaxOps=2))
+    if not q:
+        gen("tovl", **dict(tov, InitN=1, MaxOps=3))
     # lists without a gate point inside their loop: whole dispatches between operations + white box
     gen("rw", OpKinds={"add", "delidx"}, StepWise=False, MaxOps=ctx.pick(2, 3))
     if not q:
@@ -277,12 +289,19 @@ def main_view_before(block, i):
     for e in block[:i]:
         if e["ev"] == "opbegin":
             l = e.get("l", "main")
-        elif e["ev"] == "aview" or (e["ev"] == "opdone" and l == "main"):
+        elif e["ev"] == "aview":
+            view = e["views"]["main"]
+        elif e["ev"] == "opdone" and l == "main":
             view = e["view"]
     return view
 
 
-def op_text(o):
+def op_text(o, kind="ovl"):
+    if kind == "tovl":
+        return {"main": {"add": "addRoute #%(e)s", "delkey": "delRoute #%(k)s"},
+                "bl": {"add": "addBlack #%(e)s (class %(f)s)", "delidx": "delBlack %(i)s"},
+                "rw": {"add": "addRewriter #%(e)s", "delidx": "delRewriter %(i)s"},
+                "agg": {"add": "addAgg #%(e)s (class %(f)s)", "delidx": "delAgg %(i)s"}}.get(o["l"], {}).get(o["op"], "%(l)s %(op)s") % o
     if o.get("l") == "rt":
         return "modRoute prefix=%s" % ("c%d." % o["f"] if o["f"] else "''")
     return {"add": "addDest #%(e)s", "delidx": "delDest %(i)s", "updidx": "modDest %(i)s prefix=c%(f)s."}.get(o["op"], "%(op)s") % o
@@ -384,12 +403,14 @@ def run(ctx):
             ops = overlapped(b, i)
             prev = main_view_before(b, i)
             sig = "admin-overlap-not-linearizable kind=%s ops=%s" % (kind, "||".join("%s.%s" % (o["l"], o["op"]) for o in ops))
-            what = ("route with destinations %s: '%s' was in flight (inside the destination's Shutdown, route lock %s) when '%s' was "
-                    "issued; both returned (%s) and the route now lists destinations %s with route filter %s: not the result of "
+            what = ("%s: '%s' was in flight (inside Shutdown of the entry it deletes, %s lock %s) when '%s' was "
+                    "issued; both returned (%s) and the %s now shows %s ([id, filter] pairs per list): not the result of "
                     "applying the two changes one after the other in either order -- a change was lost / applied to a stale "
-                    "configuration" % (prev, op_text(ops[0]) if ops else "?", "held" if ev.get("locked") else "NOT held",
-                                       op_text(ops[1]) if len(ops) > 1 else "?",
-                                       ", ".join("err=%s" % o.get("err") for o in ops), ev.get("view"), ev.get("rtview")))
+                    "configuration" % ("table" if kind == "tovl" else "route with destinations %s" % prev,
+                                       op_text(ops[0], kind) if ops else "?", "table" if kind == "tovl" else "route",
+                                       "held" if ev.get("locked") else "NOT held", op_text(ops[1], kind) if len(ops) > 1 else "?",
+                                       ", ".join("err=%s" % o.get("err") for o in ops), "table" if kind == "tovl" else "route",
+                                       ev.get("views")))
         elif clause == "ViewOK":
             sig = "view list=%s kind=%s op=%s" % (op.get("l"), kind, op.get("op"))
             what = "after %s %s the table shows %s" % (op.get("op"), {k: op.get(k) for k in "efik"}, ev.get("view"))
@@ -438,12 +459,13 @@ def run(ctx):
     if not ends or not ops:
         raise Machinery("dead driver: no dispatches / operations recorded")
     # overlapping admin operations: every pair was really in flight together (the driver fails otherwise); how the second waited
-    ovl = [e for b in blocks if b[0].get("kind") == "ovl" for e in b if e["ev"] == "aview"]
-    n_ovl = sum(1 for s in S if s["kind"] == "ovl")
+    ovl = [e for b in blocks if b[0].get("kind") in ("ovl", "tovl") for e in b if e["ev"] == "aview"]
+    n_ovl = sum(1 for s in S if s["kind"] in ("ovl", "tovl"))
     if len(ovl) != n_ovl and not ctx.violations:
-        raise Machinery("kind ovl: %d overlapped pairs recorded for %d schedules" % (len(ovl), n_ovl))
-    if ovl and not any(e.get("locked") and e.get("g2") == "lock" for e in ovl):
-        raise Machinery("kind ovl: in no history the second operation waited for the route lock held by the first (vacuous gate)")
+        raise Machinery("kinds ovl, tovl: %d overlapped pairs recorded for %d schedules" % (len(ovl), n_ovl))
+    for k in ("ovl", "tovl"):
+        if not any(e.get("locked") and e.get("g2") == "lock" for b in blocks if b[0].get("kind") == k for e in b if e["ev"] == "aview"):
+            raise Machinery("kind %s: in no history the second operation waited for the lock held by the first (vacuous gate)" % k)
     overl = 0
     for b in lblocks:
         open_d, cnt = set(), 0
@@ -487,7 +509,10 @@ def run(ctx):
                    "destination hook; it holds the route lock and has loaded the configuration) while a second delDest / modDest / "
                    "addDest / modRoute (every index incl. the one that is valid before and beyond the end after the delete) is "
                    "started and comes to wait for the route lock; calls, returns and the resulting route snapshot judged by "
-                   "TableOps.Linearizable (some order of the two, each refused exactly when that order says so); "
+                   "TableOps.Linearizable (some order of the two, each refused exactly when that order says so); the same on the "
+                   "TABLE (kind tovl): DelAggregator parked inside Aggregator.Shutdown (the aggregator's goroutine held in its mock "
+                   "clock; table lock held, configuration loaded and not yet stored) while an add / delete on the routes, the "
+                   "blacklist, the rewriters or the aggregators is started; "
                    "load: seeded random admin histories (commands and Go API, valid/unknown/out-of-range arguments) under 2-6 "
                    "free-running dispatchers; every end/opdone event judged by TableTrace.tla; distinct = distinct "
                    "(kind, schedule) containing both an operation and a dispatch, or an overlapping pair of operations")
@@ -501,7 +526,7 @@ def run(ctx):
             break
     for b in blocks:
         if b[0]["kind"] == "ovl":
-            ctx.sample(dict(kind="ovl", events=[{k: v for k, v in e.items() if k in ("ev", "a", "l", "op", "i", "e", "f", "err", "view", "rtview", "locked", "g2")}
+            ctx.sample(dict(kind="ovl", events=[{k: v for k, v in e.items() if k in ("ev", "a", "l", "op", "i", "e", "f", "err", "views", "locked", "g2")}
                                                 for e in b if e["ev"] in ("acall", "aret", "aview")]))
             break
     ctx.sample(dict(load_history_events=len(lblocks[0]) if lblocks else 0))
@@ -516,11 +541,11 @@ def run(ctx):
         "comparison (SnapshotImmutable) plus free-running load",
         "the fate of a metric (dropped by the blacklist / consumed by a drop-raw aggregator) is read off the table's own Tracef lines "
         "and cross-checked per history against the table's blacklist counter",
-        "overlapping admin operations are forced on ONE route (destination list + route filter) by parking the first inside "
-        "Destination.Shutdown; only DelDestination can be parked while it holds the route lock without a new hook, so the first "
-        "operation of a pair is always a delete.  Two TABLE-level operations (addRoute, delRoute, addBlack, ...) are not forced to "
-        "overlap: they run concurrently only in the load histories (one admin goroutine there), i.e. a Load outside the TABLE lock "
-        "is covered by the model (LoadOutsideLock) and by the race detector of other checks, not by a forced schedule here",
+        "overlapping admin operations are forced by parking the first inside the Shutdown of the entry it deletes: on a route only "
+        "DelDestination, on the table only DelAggregator wait for another goroutine between their Load and their Store while they "
+        "hold the lock, so the FIRST operation of a pair is always one of these two; the second is any operation.  What the second "
+        "does before it asks for the lock (a Load outside the lock) is thereby exposed for every operation; a first operation of "
+        "another kind that drops the lock half-way is covered by the model only",
         "destinations point at a closed loopback port; a visit is observed at the Tracef call preceding `dest.In <- buf` (logrus hook "
         "installed by the driver, also the gate) and cross-checked against the destinations' conn_down_no_spool counters",
     ]
@@ -536,13 +561,13 @@ def ovl_cov(blocks):
     """kind ovl: overlapped pairs by (second operation, how it waited), measured on the recorded events"""
     out = {}
     for b in blocks:
-        if b[0].get("kind") != "ovl":
+        if b[0].get("kind") not in ("ovl", "tovl"):
             continue
         for i, e in enumerate(b):
             if e["ev"] == "aview":
                 ops = overlapped(b, i)
                 if len(ops) == 2:
-                    k = "%s.%s/%s" % (ops[1]["l"], ops[1]["op"], e.get("g2"))
+                    k = "%s:%s.%s/%s" % (b[0]["kind"], ops[1]["l"], ops[1]["op"], e.get("g2"))
                     out[k] = out.get(k, 0) + 1
     return out
 
@@ -628,7 +653,7 @@ def selftest(ctx, blocks):
         flat = copy.deepcopy(b)
         stale = [list(x) for x in before]
         stale[ops[1]["i"]][1] = ops[1]["f"]
-        flat[av]["view"] = stale
+        flat[av]["views"]["main"] = stale
         hit = []
         validate(ctx, "selftest4", split(flat), False, lambda bb, i, c: hit.append((bb[i], c)), max_rounds=1)
         if not hit or hit[0][1] != "AdminLinearizable" or hit[0][0] != flat[av]:
